@@ -14,6 +14,21 @@ def _rayon(n):
 
 
 PLAN = {
+    "C10": {
+        "level": "exploration",
+        "engines": lambda tier: [_e("release", "packmc", "c10")],
+        "assumptions": [
+            "logical containers: shapes small/multi/multi2 (+big in thorough) x 4 compressions; the reference model is the logical dump of the spec",
+            "a prefix that is itself a CRC-valid pack header is outside the enumeration (the reader documents that a valid header at offset 0 wins)",
+        ],
+    },
+    "C11": {
+        "level": "fault_enumeration",
+        "engines": lambda tier: [_e("release", "packmc", "c11")],
+        "assumptions": [
+            "faults = unavailability of content packs: removed / replaced by a directory / replaced by a different valid pack; other damage of pack files is C05/C06's subject",
+        ],
+    },
     "C04": {
         "level": "fault_enumeration",
         "engines": lambda tier: [_e("release", "faultmc", "c04")],
